@@ -110,6 +110,27 @@ type site struct {
 	Fin     int    `json:"fin"`
 	FinTxt  string `json:"fin_text,omitempty"`
 	Path    string `json:"path_expr"`
+	// Reviewed: for a call that makes a durable path disappear or rebinds it
+	// without the atomic writer, the 1-based index of its entry in
+	// reviewedRemovals (0: not reviewed).
+	Reviewed  int    `json:"reviewed"`
+	ReviewTxt string `json:"review_text,omitempty"`
+}
+
+// reviewedRemovals are the only calls allowed to remove or rename away one of the
+// three durable files.  Each entry stands for exactly one call, identified by the
+// enclosing function, the callee and the text of the path argument.
+var reviewedRemovals = []struct{ fn, callee, path, why string }{
+	{
+		modPath + "/internal/dhcpd.server.handleReset", "os.Remove", "s.conf.dbFilePath",
+		"POST /control/dhcp/reset: the user asks to forget every lease and the configuration; the " +
+			"database is deleted as a whole on purpose; this is not a save",
+	},
+	{
+		modPath + "/internal/filtering.DNSFilter.handleFilteringRemoveURL", "os.Rename", "p",
+		"POST /control/filtering/remove_url: the list itself is removed from the configuration; its " +
+			"file is moved to <id>.txt.old (removed after the next refresh); this is not a save",
+	},
 }
 
 type extractor struct {
@@ -130,6 +151,8 @@ type extractor struct {
 	wrapperOK [3]bool
 	// limiters: every size-limiting wrapper in the module
 	limiters []*limiter
+	// reviewUsed: entries of reviewedRemovals already matched by a site
+	reviewUsed map[int]bool
 }
 
 // Limiter kinds.
@@ -237,6 +260,7 @@ func main() {
 		callsOf:    map[*types.Func][]callInfo{},
 		finalisers: map[string]bool{},
 		outside:    map[string]bool{},
+		reviewUsed: map[int]bool{},
 	}
 	x.pkgs = load.Packages("./internal/...", ".")
 	if len(x.pkgs) == 0 {
@@ -378,6 +402,16 @@ func (x *extractor) collectIn(pkg *packages.Package, fd *ast.FuncDecl, body *ast
 			}
 			if op == opPendingFile {
 				s.Fin, s.FinTxt = x.finalisation(pkg, fd, call)
+			}
+			if op != opAtomicWrite && op != opPendingFile && prov&^provOther != 0 && !derived {
+				for i, rv := range reviewedRemovals {
+					if rv.fn == s.Func && rv.callee == name && rv.path == s.Path && !x.reviewUsed[i] {
+						x.reviewUsed[i] = true
+						s.Reviewed, s.ReviewTxt = i+1, rv.why
+
+						break
+					}
+				}
 			}
 			x.sites = append(x.sites, s)
 		}
@@ -1235,20 +1269,27 @@ func (x *extractor) write() {
 	sb.WriteString("   prov: bit set — 1 other, 2 configuration file, 4 lease database, 8 filter-list file\n")
 	sb.WriteString("   derived: a durable path with a suffix appended (names another file)\n")
 	sb.WriteString("   fin (pending files): 0 n/a, 1 deferred finaliser on all paths, 2 handed to the caller\n")
-	sb.WriteString("         by the aghrenameio wrapper, 3 NOT finalised on all paths -/\n")
+	sb.WriteString("         by the aghrenameio wrapper, 3 NOT finalised on all paths\n")
+	sb.WriteString("   reviewed: for a call that removes / renames away / rebinds a durable path without the\n")
+	sb.WriteString("         atomic writer: index of its entry in the extractor's reviewed list, 0 = NOT reviewed -/\n")
 	sb.WriteString("namespace AGH.C14.Gen\n\n")
-	sb.WriteString("structure Site where\n  id : Nat\n  op : Nat\n  prov : Nat\n  derived : Bool\n  fin : Nat\n  deriving DecidableEq, Repr\n\n")
+	sb.WriteString("structure Site where\n  id : Nat\n  op : Nat\n  prov : Nat\n  derived : Bool\n  fin : Nat\n  reviewed : Nat\n  deriving DecidableEq, Repr\n\n")
 	sb.WriteString("def sites : List Site := [\n")
 	for i, s := range x.sites {
 		comma := ","
 		if i == len(x.sites)-1 {
 			comma = ""
 		}
-		fmt.Fprintf(&sb, "  ⟨%d, %d, %d, %v, %d⟩%s  -- %s %s(%s) in %s [%s]\n",
-			s.ID, s.Op, s.Prov, s.Derived, s.Fin, comma, s.Pos, shortCallee(s.Callee), oneLine(s.Path),
+		fmt.Fprintf(&sb, "  ⟨%d, %d, %d, %v, %d, %d⟩%s  -- %s %s(%s) in %s [%s]\n",
+			s.ID, s.Op, s.Prov, s.Derived, s.Fin, s.Reviewed, comma, s.Pos, shortCallee(s.Callee), oneLine(s.Path),
 			strings.TrimPrefix(s.Func, modPath+"/internal/"), s.ProvTxt)
 	}
 	sb.WriteString("]\n\n")
+	sb.WriteString("/- reviewed removals of durable paths:\n")
+	for i, rv := range reviewedRemovals {
+		fmt.Fprintf(&sb, "   %d. %s(%s) in %s — %s\n", i+1, rv.callee, rv.path, strings.TrimPrefix(rv.fn, modPath+"/internal/"), rv.why)
+	}
+	sb.WriteString("-/\n\n")
 	sb.WriteString("/-- aghrenameio.pendingFile.CloseReplace / Cleanup / Write are single delegations to\n")
 	sb.WriteString("renameio's CloseAtomicallyReplace / Cleanup and os.File.Write -/\n")
 	fmt.Fprintf(&sb, "def wrapperDelegates : List Bool := [%v, %v, %v]\n", x.wrapperOK[0], x.wrapperOK[1], x.wrapperOK[2])
